@@ -112,6 +112,8 @@ class SolvGen:
                 self.alg.append(nm)
                 self.unknowns.append(nm)
                 self.val[nm] = q(r, -3, 3)
+            # the value of the unexpanded vector symbol (used when expand_vectors is off)
+            self.val["xv"] = [self.val["xv[1]"], self.val["xv[2]"]]
             self.tags.add("array-elements-as-unknowns")
         core_unknowns = list(self.unknowns)
         if self.affine:
